@@ -1822,7 +1822,11 @@ func (m *Machine) ParseStates(states S) S {
 	}
 
 	if dups {
-		return slicesUniq(states)
+		// unique known states, in the order given
+		return slicesFilter(slicesUniq(states), func(s string, _ int) bool {
+			_, ok := seen[s]
+			return ok
+		})
 	}
 	return slices.Collect(maps.Keys(seen))
 }
